@@ -91,6 +91,53 @@ def cval(t):
     return t[1]
 
 
+def _negates(a, b) -> bool:
+    return (isinstance(a, tuple) and a[:2] == ("un", "not") and a[2] == b) or (isinstance(b, tuple) and b[:2] == ("un", "not") and b[2] == a)
+
+
+def simp_ite(t: Term, depth: int = 0) -> Term:
+    """ite(c, a, a) is a;  ite(c, a, ite(not c, b, x)) is ite(c, a, b);  ite(c, a, ite(c, x, b)) is ite(c, a, b)   (top levels only)"""
+    if not (isinstance(t, tuple) and t and t[0] == "ite") or depth > 6:
+        return t
+    c, a, b = t[1], simp_ite(t[2], depth + 1), simp_ite(t[3], depth + 1)
+    if isinstance(b, tuple) and b and b[0] == "ite":
+        if b[1] == c:
+            b = b[3]
+        elif _negates(b[1], c):
+            b = b[2]
+    if isinstance(a, tuple) and a and a[0] == "ite":
+        if a[1] == c:
+            a = a[2]
+        elif _negates(a[1], c):
+            a = a[3]
+    if a == b:
+        return a
+    return ("ite", c, a, b)
+
+
+def none_test(t: Term, depth: int = 0):
+    """`t is None` as a term when every alternative of t is either None or something that cannot be None (a display, a number, an enum
+    member): the test then only depends on the gates.  None when it cannot be said."""
+    if not isinstance(t, tuple) or not t or depth > 6:
+        return None
+    if t == ("const", None):
+        return ("const", True)
+    if t[0] in ("tuple", "list", "dict", "set", "enum", "fstr") or (t[0] == "const" and t[1] is not None) or (t[0] == "bin" and t[1] in ("+", "-", "*", "&", "|", "^", "<<", ">>")):
+        return ("const", False)
+    if t[0] == "ite":
+        a, b = none_test(t[2], depth + 1), none_test(t[3], depth + 1)
+        if a is None or b is None:
+            return None
+        if a == b:
+            return a
+        if a == ("const", True) and b == ("const", False):
+            return t[1]
+        if a == ("const", False) and b == ("const", True):
+            return ("un", "not", t[1])
+        return simp_ite(("ite", t[1], a, b))
+    return None
+
+
 def unview(t: Term) -> Term:
     """Strip content-preserving wrappers: memoryview(x) / bytes(x) / bytearray(x) / x.tobytes() / cast(T, x); a conditional whose two
     alternatives are the same content either way (`bytes(x) if not x.c_contiguous else x`) is that content."""
@@ -413,6 +460,8 @@ class TermAnalysis(Analysis):
         for k, v in self.args.items():
             if k.startswith("<closure>"):
                 env[k[len("<closure>"):]] = v
+            elif "." in k and k.split(".", 1)[0] in self.param_names:
+                env[k] = v          # attribute state handed in by the caller (`self._buffer` as the caller left it)
         return State(env)
 
     # -------------------------------------------------------------- domain ops
@@ -445,7 +494,7 @@ class TermAnalysis(Analysis):
             else:
                 va = va if va is not None else self._unbound(k)
                 vb = vb if vb is not None else self._unbound(k)
-                env[k] = ("ite", gate_c, va, vb) if gate_truth else ("ite", gate_c, vb, va)
+                env[k] = simp_ite(("ite", gate_c, va, vb) if gate_truth else ("ite", gate_c, vb, va))
         pc = prefix
         complementary = (len(ra) == 1 and len(rb) == 1 and ra[0][0] == rb[0][0] and ra[0][1] != rb[0][1])
         if not complementary and (ra or rb):
@@ -736,6 +785,9 @@ class TermAnalysis(Analysis):
         if it[0] == "comp" and it[1] in ("gen", "list") and len(it[3]) == 1 and not it[3][0][2] and it[3][0][0].isidentifier():
             # iterating over (f(x) for x in xs) visits f(<element of xs>)
             el = replace(it[2], {("bound", it[3][0][0]): ("iter", it[3][0][1])})
+        elif it[0] == "call" and it[1] == ("ext", "enumerate") and 1 <= len(it[2]) <= 2 and isinstance(node.target, (ast.Tuple, ast.List)) and len(node.target.elts) == 2:
+            # for i, x in enumerate(xs): x is an element of xs (the index keeps its own form)
+            el = ("tuple", (("item", ("iter", it), 0), ("iter", it[2][0])))
         self.assign(node.target, el, st)
         return st
 
@@ -1006,6 +1058,20 @@ class TermAnalysis(Analysis):
             if base[0] == "param" and self.cls is not None and self.param_names and base[1] == self.param_names[0] \
                     and self.fn.kind in ("method", "classmethod", "property", "setter"):
                 a = self.prog.lookup_class_attr(self.cls, e.attr)
+                if a is not None and e.attr.isupper() and isinstance(a[1], ast.DictComp) and len(a[1].generators) == 1 and not a[1].generators[0].ifs \
+                        and isinstance(a[1].generators[0].target, ast.Name) and isinstance(a[1].key, ast.Name) and a[1].key.id == a[1].generators[0].target.id \
+                        and a[0].module is self.m and self.inline_depth < 4:
+                    # a table precomputed at class level, {k: f(k) for k in <range>}: kept as the comprehension it is (a lookup is then f at that key)
+                    saved = self.record
+                    self.record = False
+                    try:
+                        t_ = self.ev(a[1], State({}))
+                        if t_[0] == "comp" and is_const(t_[3][0][1]) and isinstance(t_[3][0][1][1], range):
+                            return t_
+                    except AnalysisError:
+                        pass
+                    finally:
+                        self.record = saved
                 if a is not None and e.attr.isupper():
                     try:
                         return const(self.prog.fold(a[1], a[0].module, a[0]))
@@ -1055,6 +1121,10 @@ class TermAnalysis(Analysis):
                 lo = self.ev(e.slice.lower, st) if e.slice.lower else None
                 hi = self.ev(e.slice.upper, st) if e.slice.upper else None
                 step = self.ev(e.slice.step, st) if e.slice.step else None
+                if lo is None and hi is None and step == const(-1) and base[0] == "call" and base[1][0] == "meth" and base[1][2] == "to_bytes" \
+                        and len(base[2]) == 2 and is_const(base[2][1]) and base[2][1][1] in ("little", "big") and not base[3]:
+                    # n.to_bytes(k, "little")[::-1] is n.to_bytes(k, "big")
+                    return ("call", base[1], (base[2][0], const("big" if base[2][1][1] == "little" else "little")), ())
                 return ("slice", base, lo, hi, step)
             idx = self.ev(e.slice, st)
             if is_const(idx) and isinstance(idx[1], slice):
@@ -1145,6 +1215,9 @@ class TermAnalysis(Analysis):
                     # n in range(a, b) for an integer n is a <= n < b
                     rng = ("bool", "and", (("cmp", "<=", const(r[1].start), left), ("cmp", "<", left, const(r[1].stop))))
                     parts.append(rng if isinstance(op, ast.In) else ("un", "not", rng))
+                elif isinstance(op, (ast.Is, ast.IsNot)) and r == ("const", None) and left[0] == "ite" and none_test(left) is not None:
+                    nt = none_test(left)          # `x is None` for a gated x whose alternatives are None or displays: a question about the gates
+                    parts.append(nt if isinstance(op, ast.Is) else (("const", not nt[1]) if is_const(nt) else (nt[2] if nt[:2] == ("un", "not") else ("un", "not", nt))))
                 elif isinstance(op, (ast.Is, ast.IsNot)) and is_const(left) and is_const(r) and (left[1] is None or r[1] is None) \
                         and all(isinstance(x[1], (bool, int, str, bytes, float, type(None))) for x in (left, r)):
                     parts.append(const((left[1] is None and r[1] is None) == isinstance(op, ast.Is)))          # None is None / 3 is not None
@@ -1407,6 +1480,14 @@ class TermAnalysis(Analysis):
             for k, v in reversed(t[1][1][1]):
                 out = ("ite", _key_eq(t[2][0], k), v, out)
             return out
+        if t[0] == "call" and t[1][0] == "meth" and t[1][2] == "get" and t[1][1][0] == "comp" and t[1][1][1] == "dict" and 1 <= len(t[2]) <= 2 and not t[3] \
+                and len(t[1][1][3]) == 1 and not t[1][1][3][0][2] and t[1][1][2][0] == "tuple" and t[1][1][2][1][0] == ("bound", t[1][1][3][0][0]) \
+                and is_const(t[1][1][3][0][1]) and isinstance(t[1][1][3][0][1][1], range) and t[1][1][3][0][1][1].step == 1 and _integer_valued_loose(t[2][0]):
+            # {k: E(k) for k in range(a, b)}.get(x, d) is E(x) if a <= x < b else d
+            comp_, x_ = t[1][1], t[2][0]
+            rng_ = comp_[3][0][1][1]
+            inside = ("bool", "and", (("cmp", "<=", const(rng_.start), x_), ("cmp", "<", x_, const(rng_.stop))))
+            return ("ite", inside, replace(comp_[2][1][1], {("bound", comp_[3][0][0]): x_}), t[2][1] if len(t[2]) == 2 else const(None))
         if t[0] == "call" and t[1][0] == "meth" and t[1][2] in ("pack", "unpack", "unpack_from", "iter_unpack") and is_const(t[1][1]) \
                 and isinstance(t[1][1][1], tuple) and len(t[1][1][1]) == 2 and t[1][1][1][0] == "struct.Struct":
             # S = struct.Struct(fmt); S.unpack_from(buf, off) is struct.unpack_from(fmt, buf, off)
@@ -1672,6 +1753,10 @@ class TermAnalysis(Analysis):
             return leaves(x[2]) + leaves(x[3]) if x[0] == "ite" else [x]
         if v[0] == "call" and v[1][0] == "ext" and v[1][1] in ("operator.itemgetter", "operator.attrgetter") and v[2] and not v[3] and all(is_const(a) for a in v[2]):
             v = const((v[1][1], tuple(a[1] for a in v[2])))          # itemgetter("a", "b")(x): the getter object applied at once
+        if v[0] == "attr" and is_const(v[1]) and isinstance(v[1][1], tuple) and len(v[1][1]) == 2 and v[1][1][0] == "struct.Struct" \
+                and v[2] in ("pack", "unpack", "unpack_from", "iter_unpack"):
+            # S = struct.Struct(fmt); f = S.pack; f(x) is S.pack(x)   (a bound method of a precompiled format handed to map() or kept in a local)
+            return ("call", ("ext", f"struct.{v[2]}"), (const(v[1][1][1]),) + tuple(args), tuple(kwargs))
         if v[0] == "call" and v[1] == ("ext", "functools.partial") and v[2] and not any(k == "**" for k, _x in v[3] + tuple(kwargs)) \
                 and not any(a[0] == "starred" for a in v[2] + tuple(args)):
             # partial(f, a, k=b)(c, m=d) is f(a, c, k=b, m=d)
@@ -2072,6 +2157,16 @@ def unsupplied_switches(prog: Program, fn: FuncInfo) -> Dict[str, Term]:
         return cache[fn.qual]
     pos_names = [x.arg for x in pos]
     recv = 1 if (fn.cls is not None and fn.kind in ("method", "classmethod", "property", "setter")) else 0
+    owner = {}          # call node -> the function whose body it stands in (module-level calls have none)
+    for g in prog.funcs.values():
+        for n in ast.walk(g.node):
+            if isinstance(n, ast.Call):
+                owner.setdefault(id(n), g)
+
+    def passes_default(arg, caller, p_):
+        """the argument only hands on the caller's own switch, which nobody supplies either (construct(.., strict) -> _construct(.., strict))"""
+        return isinstance(arg, ast.Name) and caller is not None and caller.qual != fn.qual and p_ in cands \
+            and unsupplied_switches(prog, caller).get(arg.id) == cands[p_]
     for m in prog.modules.values():
         for n in ast.walk(m.tree):
             if not isinstance(n, ast.Call):
@@ -2083,11 +2178,13 @@ def unsupplied_switches(prog: Program, fn: FuncInfo) -> Dict[str, Term]:
             if any(k.arg is None for k in n.keywords) or any(isinstance(x, ast.Starred) for x in n.args):
                 cands = {}
                 break
+            caller = owner.get(id(n))
             for k in n.keywords:
-                cands.pop(k.arg, None)
-            for i in range(len(n.args)):
+                if not passes_default(k.value, caller, k.arg):
+                    cands.pop(k.arg, None)
+            for i, arg in enumerate(n.args):
                 for off in (0, recv):
-                    if i + off < len(pos_names):
+                    if i + off < len(pos_names) and not passes_default(arg, caller, pos_names[i + off]):
                         cands.pop(pos_names[i + off], None)
         if not cands:
             break
